@@ -373,6 +373,11 @@ func (t *Transformer) ReverseTranslate(v reflect.Value) (reflect.Value, error) {
 		mangledfieldOffset := 0
 		unmangledLayerVals := make([]FieldValueTuple, len(t.mState[manglerNum]))
 		for srcFieldIdx, srcFieldstate := range t.mState[manglerNum] {
+			if !ast.IsExported(srcFieldstate.in.Name) {
+				// TranslateType skipped this (unexported) field:
+				// there is nothing to unmangle.
+				continue
+			}
 			// slice down to just the mangled fields we're
 			// interested in for this unmangled field.
 			fvtuples := layerMangledVal[mangledfieldOffset : mangledfieldOffset+len(srcFieldstate.out)]
